@@ -454,6 +454,11 @@ func GenRandomFor(rng *rand.Rand, nframes int, mask int, alt bool) *Scn {
 			switch x := rng.Intn(20); {
 			case x < 10:
 				c := randCell(rng, cv, m.cols)
+				if mask&(1<<14) != 0 && rng.Intn(4) == 0 && len([]rune(c.G)) == 1 && cv.AppWidth(c.G) == 1 {
+					// a terminal with explicit width displays a glyph in as many cells as the
+					// application says: a narrow character laid out two cells wide
+					c.W = 2
+				}
 				op = Op{K: "set", C: rng.Intn(m.cols+1) - 0, R: rng.Intn(m.rows), Cell: &c}
 				if rng.Intn(10) == 0 {
 					op.C = -1
